@@ -386,6 +386,17 @@ def record_iteration(rows):
     return [(pair.first, len(pair.second)) for pair in _pairs(rows)], [p.second for p in _pairs(rows)]
 
 
+def record_sequence(points, measure):
+    start, end = sorted((Pair(first=p, second=measure(p)) for p in points), key=lambda pair: pair.second)
+    return start.first, end.first, start.second, end.second
+
+
+def sort_then_return(items):
+    found = [i * 2 for i in items]
+    found.sort(key=lambda v: (v % 3, v))
+    return found
+
+
 def record_object(batches):
     total = sum(len(items) for _, items in batches)
     buffer = Buffer(labels=[None] * total, rows=[None] * total)
@@ -1249,6 +1260,8 @@ CASES = {
     'record_call_field': [('lon lat',), ('lon lat z',), ('lon',)],
     'record_iteration': [([[1, 2], [3]],), ([],)],
     'NamesHolder.second_name': [(NamesHolder('a b'),), (NamesHolder('a'),)],
+    'record_sequence': [([3, 1], abs), ([-1, -5], abs), ([2, 2], abs)],
+    'sort_then_return': [([3, 1, 2],), ([],)],
     'record_object': [([('a', [1, 2]), ('b', [3])],), ([],)],
     'procedure_with_early_exit': [([1, -1, None, -3], []), ([1, 2], []), ([], [])],
     'unchanged_return': [(numpy.array([1, 2, 3]), 0), (numpy.array([1, 2, 3]), 1)],
